@@ -1,6 +1,7 @@
 package c02
 
 import (
+	"os"
 	"strings"
 
 	"verif/ref/irjs"
@@ -31,6 +32,8 @@ const (
 	sigVarParam     = "function-body|var-redeclares-rest-or-destructured-parameter|rejected-as-already-declared"
 	sigParamSelfRef = "function-prologue|self-or-forward-referencing-default-parameter|arguments-object-or-TDZ-check-wrong"
 	sigSuperField   = "class-field-initialiser|super-property|rejected-as-unexpected-super"
+	sigNestedLabel  = "label|continue-to-outer-label-of-doubly-labelled-loop|rejected-as-illegal-continue"
+	sigFinallyJump  = "completion-value|finally-left-by-nested-break-or-continue|value-of-try-block-kept"
 	sigDefaultParam = "function-prologue|default-parameter-after-forward-reference-or-eval|supplied-argument-left-uninitialised"
 )
 
@@ -73,7 +76,7 @@ var recognisers = []recogniser{
 		return fd && lex
 	}},
 	{sigConstTDZ, func(cp *irjs.Node, f *failure) bool {
-		if f.kind != "exception" || !strings.Contains(f.want, "THROW error:ReferenceError") || !strings.Contains(f.got, "THROW error:TypeError") {
+		if d := firstDiff(f.want, f.got); !(f.kind == "exception" || f.kind == "log") || !strings.Contains(d, "ReferenceError") || !strings.Contains(d, "TypeError") {
 			return false
 		}
 		consts := map[string]bool{}
@@ -116,6 +119,38 @@ var recognisers = []recogniser{
 		}
 		return anyNode(cp, func(n *irjs.Node) bool {
 			return (n.Is("field") || n.Is("sfield")) && len(n.Kids) > 1 && anyNode(n.Kids[1], func(m *irjs.Node) bool { return m.Is("superdot") })
+		})
+	}},
+	{sigNestedLabel, func(cp *irjs.Node, f *failure) bool {
+		if !(f.oracle == "compile" && strings.Contains(f.got, "does not denote an iteration statement")) && !(strings.Contains(f.got, "THROW error:SyntaxError") && !strings.Contains(f.want, "SyntaxError")) {
+			return false
+		}
+		return anyNode(cp, func(n *irjs.Node) bool {
+			if !n.Is("label") || !n.Kids[1].Is("label") {
+				return false
+			}
+			outer := n.Kids[0].Op
+			return anyNode(n.Kids[1], func(m *irjs.Node) bool { return m.Is("continue") && len(m.Kids) > 0 && m.Kids[0].IsAtom(outer) })
+		})
+	}},
+	{sigFinallyJump, func(cp *irjs.Node, f *failure) bool {
+		if f.kind != "value" {
+			return false
+		}
+		return anyNode(cp, func(n *irjs.Node) bool {
+			if !n.Is("try") || n.Kids[2].IsNone() {
+				return false
+			}
+			// a break / continue somewhere inside the finally block, but not as its direct statement
+			for _, st := range n.Kids[2].Kids {
+				if st.Is("break") || st.Is("continue") {
+					continue
+				}
+				if anyNode(st, func(m *irjs.Node) bool { return m.Is("break") || m.Is("continue") }) {
+					return true
+				}
+			}
+			return false
 		})
 	}},
 	{sigSurplusArgs, func(cp *irjs.Node, f *failure) bool {
@@ -326,4 +361,81 @@ func logPart(key string) string {
 		}
 	}
 	return key
+}
+
+// ---------- Go fatal errors ----------
+
+const sigSwitchEval = "fatal|switch-with-lexical-declaration|direct-eval-inside|enterBlock-stack-size-underflow"
+
+// fatalProbe: a script that is run in a process of its own at the start of every run. If it kills the process the
+// finding is reported and the shape is kept out of the in-process exploration (guard); once the defect is fixed
+// the probe survives and the guard is lifted automatically.
+type fatalProbe struct {
+	sig, what, script, guardEnv string
+}
+
+var fatalProbes = []fatalProbe{
+	{sigSwitchEval, "a switch statement that declares a let/const/class/function in a case clause and contains a direct eval (anywhere inside, also in a nested function) kills the host: `switch (1) { case 1: let y = 1; eval(\"\") }` makes the Go runtime die with 'fatal error: out of memory' (compileSwitchStatement decrements enterBlock.stackSize, which is 0 when the scope is dynamic, to 4294967295)",
+		`switch (1) { case 1: let y = 1; eval("") }`, "C02_GUARD_SWITCH_EVAL"},
+}
+
+var guardSwitchEval = os.Getenv("C02_GUARD_SWITCH_EVAL") != ""
+
+// crashShape: the program would run into a known Go fatal error (only consulted while the corresponding probe
+// still dies).
+func crashShape(p *irjs.Node) bool {
+	if !guardSwitchEval {
+		return false
+	}
+	found := false
+	var rec func(n *irjs.Node, inLexSwitch bool)
+	rec = func(n *irjs.Node, inLexSwitch bool) {
+		if n == nil || found {
+			return
+		}
+		if n.Is("evalstr") || n.Is("call") && n.Kids[0].IsAtom("eval") {
+			if inLexSwitch {
+				found = true
+				return
+			}
+		}
+		if n.Is("switch") && switchHasLexical(n) {
+			rec(n.Kids[0], inLexSwitch)
+			for _, c := range n.Kids[1:] {
+				rec(c, true)
+			}
+			return
+		}
+		for _, k := range n.Kids {
+			rec(k, inLexSwitch)
+		}
+	}
+	rec(p, false)
+	return found
+}
+
+func switchHasLexical(n *irjs.Node) bool {
+	for _, c := range n.Kids[1:] {
+		list := c.Kids
+		if c.Is("case") {
+			list = c.Kids[1:]
+		}
+		for _, s := range list {
+			for s.Is("label") {
+				s = s.Kids[1]
+			}
+			if s.Is("let") || s.Is("const") || s.Is("classdecl") || s.Is("fdecl") {
+				return true
+			}
+		}
+	}
+	return false
+}
+
+// classifyFatal names the known classes of Go fatal errors by the shape of the base program.
+func classifyFatal(p *irjs.Node) string {
+	if anyNode(p, func(n *irjs.Node) bool { return n.Is("switch") && switchHasLexical(n) }) {
+		return sigSwitchEval
+	}
+	return ""
 }
